@@ -16,6 +16,9 @@ import (
 	"strings"
 	"time"
 
+	"github.com/janelia-flyem/dvid/datastore"
+	"github.com/janelia-flyem/dvid/dvid"
+
 	"verif/vlib"
 	"verif/vsrv"
 	"verif/vsync"
@@ -26,7 +29,24 @@ func init() {
 	vlib.Workers["c11"] = c11Worker
 }
 
+// c11LastRoot: the repo of the previous execution. It is deleted before the next world is built: the repo manager persists
+// its uuid / version maps in full on every change, so thousands of abandoned repos per worker made every save larger
+// (gigabytes of value log per worker on tmpfs). A world abandoned in a deadlock keeps its locks and is left alone.
+var c11LastRoot string
+
+// c11NoCleanup: set by the first execution that ends in a deadlock. Its repos keep their locks for ever; from then on nothing
+// is deleted in this worker (deleting a locked repo would hang the harness).
+var c11NoCleanup bool
+
 func c11RunOnce(sc c11Scenario, prefix []int) (*vsync.Execution, []string, string, error) {
+	if c11LastRoot != "" && !c11NoCleanup {
+		// every repo of the previous execution: its world and the repos its requests created (S6c / S6d)
+		for _, r := range datastore.VerifDump().Repos {
+			datastore.DeleteRepo(dvid.UUID(r.Root), "")
+		}
+		c11LastRoot = ""
+		vsrv.Quiesce()
+	}
 	w, err := sc.setup()
 	if err != nil {
 		return nil, nil, "", err
@@ -42,6 +62,7 @@ func c11RunOnce(sc c11Scenario, prefix []int) (*vsync.Execution, []string, strin
 	var bad []string
 	if ex.Deadlock != "" {
 		bad = append(bad, "deadlock\t"+ex.Deadlock)
+		c11NoCleanup = true
 		return ex, bad, "deadlock", nil
 	}
 	vsrv.Quiesce()
@@ -49,12 +70,24 @@ func c11RunOnce(sc c11Scenario, prefix []int) (*vsync.Execution, []string, strin
 	if sc.observe != nil {
 		bad = append(bad, "OBS\t"+sc.observe(w))
 	}
+	if w.root != "" && (strings.HasPrefix(sc.name, "S2") || strings.HasPrefix(sc.name, "S6b") || strings.HasPrefix(sc.name, "S6d")) && !strings.HasPrefix(sc.name, "S2h") && !strings.HasPrefix(sc.name, "S2i") {
+		// repo-level scenarios: at quiescence every acknowledged change must also be in the metadata store - what the
+		// start-up loader reads back (into a second, read-only manager) equals the live manager, as it does after every
+		// sequential request (C03's reload differential). S2h / S2i delete the repo and have a store observation of their own.
+		world := &c07World{roots: []string{w.root}}
+		if re, err := world.reloaded(); err != nil {
+			bad = append(bad, "stored-metadata-unreadable\t"+trunc(err.Error(), 300))
+		} else if class, what := c07ReloadDiff(world, world.snapshot(), re); class != "" {
+			bad = append(bad, "stored-differs-from-live:"+class+"\t"+trunc(what, 1500))
+		}
+	}
 	codes := make([]string, 0, len(w.resp))
 	for _, r := range w.resp {
 		if r.Code != 0 {
 			codes = append(codes, fmt.Sprint(r.Code))
 		}
 	}
+	c11LastRoot = w.root
 	return ex, bad, strings.Join(codes, ","), nil
 }
 
@@ -68,7 +101,7 @@ func c11Worker(args []string) int {
 		return 1
 	}
 	vsrv.SingleThreaded = true
-	vsrv.SchedPoint = func(kind string) { vsync.Yield(kind) }
+	vsrv.SchedPoint = func(kind string) { vsync.StorePoint(kind) }
 	scs := map[string]c11Scenario{}
 	for _, s := range c11Scenarios() {
 		scs[s.name] = s
